@@ -315,7 +315,7 @@ static void run_C08(const Args &a, long cs) {
 // written fails (ENOSPC/EIO, once or from then on), or the process is killed on entering it (a real crash state on the real file system).
 // The child's exit status is the writer's verdict; the parent reads the file back.
 struct SysOp { std::string name; long ordinal; bool creat; };
-static const char *SYS_TRACE = "openat,write,pwrite64,writev,lseek,close,ftruncate,fsync,fdatasync,unlink,rename";
+static const char *SYS_TRACE = "openat,read,pread64,write,pwrite64,writev,lseek,close,ftruncate,fsync,fdatasync,unlink,rename";
 struct SysRun { int status = -1; bool killed = false; int sig = 0; bool injected = false; std::vector<SysOp> ops; std::string injected_line; };
 static SysRun sys_run(const std::string &inject, const std::string &in, const std::string &outp, const std::string &log, const char *api) {
 	SysRun R; unlink(log.c_str());
@@ -339,6 +339,9 @@ static SysRun sys_run(const std::string &inject, const std::string &in, const st
 static void run_C08sys(const Args &a, long cs) {
 	Rng r(a.seed, "C08sys", cs);
 	Spec s = sized_spec(r, (int)cs);
+	// one table in six carries ~1450 auxiliary keys: its primary header (41+ records) is larger than the 40 records cfitsio buffers, so that cfitsio re-reads and
+	// re-positions inside the output file while finishing it; only then does the writer issue read() and data-path lseek() calls on its own output
+	bool bighdr = cs % 6 == 5; if (bighdr) { for (int i = 0; i < 1450; i++) s.aux.push_back({"K" + std::to_string(i), "value " + std::to_string(i * 7)}); s.flavor += ",auxkeys~1450"; count("syscall-level:tables-with-a-header-larger-than-the-cfitsio-record-cache"); }
 	Table T; if (!load(T, s)) { viol("C08:load:well-formed-table-rejected", s.full_json()); return; }
 	// (one table in four is written to a name ending in .gz: cfitsio then keeps the image in memory and writes the compressed stream while closing the file)
 	bool gz = cs % 4 == 3; if (gz) count("syscall-level:tables-written-compressed(.gz)");
@@ -361,17 +364,19 @@ static void run_C08sys(const Args &a, long cs) {
 			fl.push_back({i, o.name + ":error=ENOSPC" + w, ln + ":ENOSPC", false}); fl.push_back({i, o.name + ":error=EIO" + w + "+", ln + ":EIO-persistent", false}); fl.push_back({i, o.name + ":signal=KILL" + w, ln + ":killed", true}); }
 		else if (o.name == "lseek" || o.name == "ftruncate" || o.name == "fsync" || o.name == "fdatasync") { fl.push_back({i, o.name + ":error=EIO" + w, o.name + ":EIO", false}); fl.push_back({i, o.name + ":signal=KILL" + w, o.name + ":killed", true}); }
 		else if (o.name == "close") { fl.push_back({i, o.name + ":error=EIO" + w, "close:EIO", false}); fl.push_back({i, o.name + ":error=ENOSPC" + w, "close:ENOSPC", false}); fl.push_back({i, o.name + ":signal=KILL" + w, "close:killed", true}); }
+		else if (o.name == "read" || o.name == "pread64") { fl.push_back({i, o.name + ":error=EIO" + w, o.name + ":EIO", false}); }
 		else if (o.name == "openat") { fl.push_back({i, o.name + ":error=" + (o.creat ? "ENOSPC" : "EMFILE") + w, o.creat ? "openat(create):ENOSPC" : "openat(readonly):EMFILE", false}); }
 		else if (o.name == "unlink" || o.name == "rename") { fl.push_back({i, o.name + ":error=EACCES" + w, o.name + ":EACCES", false}); }
 	}
 	size_t budget = a.tier == "thorough" ? 90 : 14;
+	if (bighdr) { std::vector<Fault> keep; for (auto &F : fl) if (F.label.compare(0, 5, "lseek") == 0 || F.label.compare(0, 4, "read") == 0 || F.label.compare(0, 5, "pread") == 0) keep.push_back(F); if (!keep.empty()) fl = keep; budget *= 2; } // (the other calls are covered by the ordinary tables)
 	std::vector<size_t> pick(fl.size()); std::iota(pick.begin(), pick.end(), 0); for (size_t i = pick.size(); i > 1; i--) std::swap(pick[i - 1], pick[r.below(i)]);
 	// 60% of the budget for faults on write calls, the rest for the other calls (unused share goes to the other group)
 	{ std::vector<size_t> wq, oq; for (size_t q : pick) (fl[q].label.compare(0, 5, "write") == 0 || fl[q].label.compare(0, 6, "pwrite") == 0 ? wq : oq).push_back(q);
 	  size_t nw_ = std::min(wq.size(), budget * 6 / 10), no_ = std::min(oq.size(), budget - nw_); nw_ = std::min(wq.size(), budget - no_);
 	  pick.assign(wq.begin(), wq.begin() + nw_); pick.insert(pick.end(), oq.begin(), oq.begin() + no_); }
 	for (size_t q : pick) {
-		Fault F = fl[q]; if (gz) F.label = "(gz)" + F.label; unlink(outp.c_str());
+		Fault F = fl[q]; if (gz) F.label = "(gz)" + F.label; if (bighdr) F.label += "(header-larger-than-cfitsio-record-cache)"; unlink(outp.c_str());
 		std::string ctx = "{\"inject\":" + jstr(F.spec) + ",\"api\":" + jstr(api) + ",\"call_index_on_file\":" + std::to_string(F.op) + ",\"of\":" + std::to_string(B0.ops.size()) + ",\"table\":" + s.brief() + "}";
 		context(ctx); phase("syscall-level: faulted run under strace");
 		SysRun R = sys_run(F.spec, in, outp, log, api);
